@@ -734,6 +734,10 @@ func (in *Interp) callBuiltin(fr *frame, site ssa.Instruction, fn *ssa.Builtin, 
 		return f.Const(64, uint64(n))
 	case "len":
 		switch x := args[0].(type) {
+		case AnyBlob:
+			// serialized size of the carried message: zero exactly when every field is zero
+			// (proto3); otherwise some positive length (1 stands for "non-empty")
+			return f.Ite(in.deepZero(x.Msg), f.Const(64, 0), f.Const(64, 1))
 		case Str:
 			return f.Const(64, uint64(x.Len()))
 		case Slice:
